@@ -433,7 +433,9 @@ def run_tree(tree, remote):
                         if not catches: raise
                         vals.append(("caught", type(e).__name__, e.args[0] if e.args else None))
                 if raises: raise ValueError("node %r" % (path,))
-                return (path, tuple(vals), token)
+                # the last child's fresh object (owned by the OTHER side) is handed further up; a leaf makes a fresh one
+                fresh = vals[-1][3] if vals and type(vals[-1]) is tuple and len(vals[-1]) == 4 and vals[-1][0] != "caught" else ["made-by", path]
+                return (path, tuple(vals), token, fresh)
             return fn
         proxies = {}
         root = make(tree, (), 0)
@@ -462,7 +464,8 @@ def run_tree(tree, remote):
                             if not catches: raise
                             vals.append(("caught", "ValueError", e.args[0] if e.args else None))
                     if raises: raise ValueError("node %r" % (path,))
-                    return (path, tuple(vals), token)
+                    fresh = vals[-1][3] if vals and type(vals[-1]) is tuple and len(vals[-1]) == 4 and vals[-1][0] != "caught" else ["made-by", path]
+                    return (path, tuple(vals), token, fresh)
                 built[path] = fn
                 # the parent (other side) needs a proxy to fn: box it on fn's side, unbox on the parent's side
                 owner = pair.a if side == 0 else pair.b
@@ -486,7 +489,12 @@ def replay_tree(tree, dummy):
     return REPLAY_HEAD + TREE_RUNNER + '''
 tree = %r
 local = run_tree(tree, False)
-remote = run_tree(tree, True)
+try:
+    remote = run_tree(tree, True)
+except Exception as e:
+    print("local ", local)
+    print("the same computation through the connection raised %%r" %% (e,))
+    print("REPRODUCED"); sys.exit(1)
 print("local ", local)
 print("remote", remote)
 if local != remote:
